@@ -30,6 +30,7 @@ fn main() {
             let thorough = tier == "thorough";
             match family.as_str() {
                 "C01" => gen_pred::gen_c01(&mut out, thorough, seed),
+                "C13" => gen_pred::gen_c13(&mut out, thorough, seed),
                 "C15" => gen_sent::gen_c15(&mut out, thorough, seed),
                 "C07" => gen_bin::gen_c07(&mut out, thorough, seed),
                 "C08" => gen_pred::gen_c08(&mut out, thorough, seed),
